@@ -82,13 +82,20 @@ func RunJob(t *testing.T, job Job) *Partial {
 		}
 		prof := job.Profiles[i%len(job.Profiles)]
 		specs := []RunSpec{{Seed: runSeed(job.Seed, job.Property, i), Profile: prof}}
+		run := engineRun(job.Engine)
+		if prof == "sweep" {
+			// fault enumeration around sampled reconciles of this seed
+			specs = SweepPlans(t, specs[0].Seed)
+			run = RunSweep
+			p.Counters["sweep.base_runs"]++
+		}
 		if job.Engine == "upgsim" {
 			// fault enumeration: one job index = one population, all its plans
 			specs = UpgradePlans(t, specs[0].Seed)
 			p.Counters["upgrade.populations"]++
 		}
 		for _, spec := range specs {
-			res := engineRun(job.Engine)(t, spec)
+			res := run(t, spec)
 			p.Runs++
 			if res.Harness != "" {
 				p.Harness = append(p.Harness, fmt.Sprintf("run %d seed %d profile %s: %s", i, spec.Seed, prof, res.Harness))
@@ -223,11 +230,13 @@ type Replay struct {
 		TraceHash uint64 `json:"trace_hash"`
 		Detail    string `json:"detail"`
 	} `json:"expect"`
-	Engine string `json:"engine,omitempty"`
+	Engine    string `json:"engine,omitempty"`
+	RefSteps  []Step `json:"ref_steps,omitempty"`
+	PureFault bool   `json:"pure_fault,omitempty"`
 }
 
 func (r *Replay) spec() RunSpec {
-	return RunSpec{Seed: r.Seed, Profile: r.Profile, Config: r.Config, Steps: r.Steps}
+	return RunSpec{Seed: r.Seed, Profile: r.Profile, Config: r.Config, Steps: r.Steps, RefSteps: r.RefSteps, PureFault: r.PureFault}
 }
 
 // findViolation looks for (check, disc) among the run's violations as
@@ -261,6 +270,18 @@ func Minimize(t *testing.T, f Failure, budget time.Duration, engine string) *Rep
 			r.Expect.TraceHash = res.TraceHash
 			r.Expect.Detail = v.Detail
 		}
+		return r
+	}
+	if f.Spec.RefSteps != nil {
+		// a fault-sweep point: already short, and tied to its reference schedule
+		res := RunSweep(t, f.Spec)
+		v := findViolation(res, f.Violation.Prop, check, disc)
+		if res.Harness != "" || v == nil {
+			return nil
+		}
+		r := &Replay{Property: f.Violation.Prop, Check: check, Disc: disc, Profile: f.Spec.Profile, Seed: f.Spec.Seed, Config: f.Spec.Config, Steps: f.Spec.Steps, RefSteps: f.Spec.RefSteps, PureFault: f.Spec.PureFault, Engine: "sweep"}
+		r.Expect.TraceHash = res.TraceHash
+		r.Expect.Detail = v.Detail
 		return r
 	}
 	if !fails(cfg, steps) {
@@ -450,6 +471,8 @@ func engineRun(engine string) func(*testing.T, RunSpec) *Result {
 		return RunWatch
 	case "upgsim":
 		return RunUpgrade
+	case "sweep":
+		return RunSweep
 	}
 	panic("unknown engine " + engine)
 }
